@@ -256,7 +256,7 @@ func comboName(ms []int) string {
 // runCombo loops the given methods concurrently on one set. It returns when all
 // goroutines finished; if they never do, the process is dead-locked and the verdict
 // comes from the Go runtime (plain build) or the snapshot monitor (race build).
-func runCombo(ms []int, iters int, seed int64) (calls, overlaps int64, panics []string) {
+func runCombo(ms []int, iters int, seed int64) (calls, overlaps int64, panics []string, invKind, invWhat string) {
 	s := ds.NewSet(0, 1, 2, 3)
 	full := ds.NewSet[int]()
 	for e := 0; e < comboUniverse; e++ {
@@ -291,7 +291,8 @@ func runCombo(ms []int, iters int, seed int64) (calls, overlaps int64, panics []
 	}
 	close(start)
 	wg.Wait()
-	return int64(len(ms) * iters), ov.Load(), panics
+	invKind, invWhat = setInvariant(s, comboUniverse)
+	return int64(len(ms) * iters), ov.Load(), panics, invKind, invWhat
 }
 
 // ------------------------------------------------------------------ dead-lock classification
@@ -543,6 +544,7 @@ func recordRun(G, n int, seed int64, do func(client int, rng *rand.Rand, i int) 
 		wg.Add(1)
 		go func(g int) {
 			defer wg.Done()
+			defer guard()
 			rng := rand.New(rand.NewSource(seed*131 + int64(g)))
 			<-start
 			for i := 0; i < n; i++ {
@@ -564,7 +566,7 @@ func recordRun(G, n int, seed int64, do func(client int, rng *rand.Rand, i int) 
 }
 
 // atomicHistory: writers add/remove whole pairs {2k,2k+1} through Apply/Compute/Replace.
-func atomicHistory(seed int64, halfSeen *atomic.Int64, views *atomic.Int64) []hop {
+func atomicHistory(seed int64, halfSeen *atomic.Int64, views *atomic.Int64) ([]hop, string, string) {
 	s := ds.NewSet[int]()
 	const pairs = 4
 	pairMask := func(k int) uint64 { return 3 << uint(2*k) }
@@ -634,12 +636,13 @@ func atomicHistory(seed int64, halfSeen *atomic.Int64, views *atomic.Int64) []ho
 		return ds.NewSetMutations[int]()
 	})
 	fin.Ret = clock.Add(1)
-	return append(h, fin)
+	k, w := setInvariant(s, 8)
+	return append(h, fin), k, w
 }
 
-func setKeyHistory(seed int64) []hop {
+func setKeyHistory(seed int64) ([]hop, string, string) {
 	s := ds.NewSet[int]()
-	return recordRun(4, 8, seed, func(client int, rng *rand.Rand, i int) hop {
+	h := recordRun(4, 8, seed, func(client int, rng *rand.Rand, i int) hop {
 		o := hop{Client: client, Key: rng.Intn(2)}
 		o.Call = clock.Add(1)
 		switch rng.Intn(3) {
@@ -656,13 +659,15 @@ func setKeyHistory(seed int64) []hop {
 		o.Ret = clock.Add(1)
 		return o
 	})
+	k, w := setInvariant(s, 2)
+	return h, k, w
 }
 
 var uniqueValue atomic.Uint64
 
-func mapKeyHistory(seed int64) []hop {
+func mapKeyHistory(seed int64) ([]hop, string, string) {
 	m := orderedmap.New[int, uint64]()
-	return recordRun(4, 8, seed, func(client int, rng *rand.Rand, i int) hop {
+	h := recordRun(4, 8, seed, func(client int, rng *rand.Rand, i int) hop {
 		o := hop{Client: client, Key: rng.Intn(2)}
 		switch rng.Intn(5) {
 		case 0, 1:
@@ -686,6 +691,8 @@ func mapKeyHistory(seed int64) []hop {
 		o.Ret = clock.Add(1)
 		return o
 	})
+	k, w := mapInvariant(m, 2)
+	return h, k, w
 }
 
 func checkHistory(kind string, h []hop) bool {
@@ -714,22 +721,30 @@ func linzChild(c *vf.Ctx, idx, n int) {
 		seed := c.Seed*1000003 + int64(idx)*100003 + int64(i)
 		for _, kind := range []string{"hist-atomic", "hist-set", "hist-map"} {
 			var h []hop
+			var ik, iw string
+			structure := "set"
 			switch kind {
 			case "hist-atomic":
 				before := halfSeen.Load()
-				h = atomicHistory(seed, &halfSeen, &views)
+				h, ik, iw = atomicHistory(seed, &halfSeen, &views)
 				if halfSeen.Load() != before {
 					c.Violation("atomicity:compute-factory-saw-partial-update", "Compute's factory, which runs under the apply lock, saw half of a pair that Apply/Compute/Replace only ever add or remove together (or saw the set change while it ran)", histCase{Kind: kind, Seed: seed, History: h})
 				}
 			case "hist-set":
-				h = setKeyHistory(seed)
+				h, ik, iw = setKeyHistory(seed)
 			default:
-				h = mapKeyHistory(seed)
+				structure = "orderedmap"
+				h, ik, iw = mapKeyHistory(seed)
 			}
 			c.Count("evaluations", 1)
 			c.Count("histories:"+kind, 1)
 			c.Count("history_ops", len(h))
 			c.Count("overlapping_op_pairs", overlapPairs(h))
+			c.Count("quiescent_consistency_checks", 1)
+			if drainPanics(c, kind+" round", seed) > 0 {
+				continue // the history is incomplete: the panic is the finding
+			}
+			reportInvariant(c, structure, kind+" round", seed, ik, iw)
 			if !checkHistory(kind, h) {
 				c.Violation(histFP[kind], fmt.Sprintf("%s history of %d operations (seed %d) has no legal sequential order", kind, len(h), seed), histCase{Kind: kind, Seed: seed, History: h})
 			}
@@ -742,14 +757,15 @@ func linzChild(c *vf.Ctx, idx, n int) {
 }
 
 // mapStress: iteration and whole-map operations racing with single-key writes (for
-// the race detector; nothing is asserted here except that everything returns).
-func mapStress(iters int, seed int64) {
+// the race detector; the map is judged for internal consistency at the end).
+func mapStress(iters int, seed int64) (string, string) {
 	m := orderedmap.New[int, uint64]()
 	var wg sync.WaitGroup
 	for g := 0; g < 4; g++ {
 		wg.Add(1)
 		go func(g int) {
 			defer wg.Done()
+			defer guard()
 			rng := rand.New(rand.NewSource(seed + int64(g)))
 			for i := 0; i < iters; i++ {
 				k := rng.Intn(4)
@@ -772,6 +788,7 @@ func mapStress(iters int, seed int64) {
 		}(g)
 	}
 	wg.Wait()
+	return mapInvariant(m, 4)
 }
 
 // ------------------------------------------------------------------ race classification
